@@ -270,6 +270,7 @@ def compute_slots(repo, col, rule: str, emit=("jaxedges", "rec_index", "external
         sent = False
         okall = True
         for pfi, node, v, nm in prods:
+            v = inline(repo, pfi, v)  # a local helper that pads / converts the indices is looked through
             sp = cl.space(v, kc)
             good = sp is not None and sp.s == want
             okall &= good
@@ -387,11 +388,23 @@ def _pure_helper(ex: Expander, value_only: bool = False) -> Optional[T]:
         while root.op in ("listacc", "phi", "sub") and root.args:
             root = root.args[0]
         return s_.kind == "mcall" and s_.key.name in ("append", "extend") and root.op in ("list", "carried", "dict")
-    if len(ex.returns) != 1 or (not value_only and any(not local_fill(s_) for s_ in ex.stores)):
+    if not ex.returns or (not value_only and any(not local_fill(s_) for s_ in ex.stores)):
         return None
-    if T.find(ex.returns[0], lambda x: x.op in ("localfn", "lambda")) is not None:
+    # early returns are one conditional value
+    ret = ex.returns[0] if len(ex.returns) == 1 else ex.merged_return()
+    if ret is None:
+        return None
+    def hands_out_closure(t, depth=0):
+        """the VALUE is a function (or a tuple / list / dict / conditional of functions), not merely an expression that passes a
+        lambda to somebody (`df.apply(lambda x: ...)`)"""
+        if t.op in ("localfn", "lambda"):
+            return True
+        if t.op in ("tuple", "list", "dict", "kv", "ifexp", "phi") and depth < 4:
+            return any(hands_out_closure(a_, depth + 1) for a_ in t.args)
+        return False
+    if hands_out_closure(ret):
         return None  # a factory of closures is not a value helper
-    return ex.returns[0]
+    return ret
 
 
 def _bind(fnode, args, kw, skip_self=False):
